@@ -374,6 +374,14 @@ pub fn on_pause_end() {
     let mut moved_ids: HashMap<u64, usize> = HashMap::new();
     let mut moved = 0u64;
     let pinned_roots: HashSet<u64> = gl.pinned_root_ids.iter().copied().collect();
+    if !moves.is_empty() {
+        with_report("C17", |r| {
+            r.evaluations += moves.len() as u64;
+            r.count("gcsim_copies_checked_for_exactly_once", moves.len() as u64);
+            r.count("gcsim_pauses_with_copies", 1);
+            r.key(mix(0xC17, mix(cfg.workers as u64, (moves.len() as u64).next_power_of_two())));
+        });
+    }
     for m in &moves {
         let e = moved_ids.entry(m.id).or_insert(0);
         *e += 1;
